@@ -88,8 +88,16 @@ class IsoTpStateMachine:
             frame_type, telegram_len = bitstruct.unpack("u4u12", data)
             assert isinstance(telegram_len, int)
 
+            payload_offset = 2
+            if telegram_len == 0 and len(data) >= 6:
+                # telegrams of more than 4095 bytes use an escape
+                # sequence (ISO 15765-2:2016): the length is given by
+                # the four bytes which follow
+                telegram_len = int.from_bytes(data[2:6], "big")
+                payload_offset = 6
+
             self._telegram_specified_len[telegram_idx] = telegram_len
-            self._telegram_data[telegram_idx] = bytearray(data[2:])
+            self._telegram_data[telegram_idx] = bytearray(data[payload_offset:])
             self._telegram_last_rx_fragment_idx[telegram_idx] = 0
 
             self.on_first_frame(telegram_idx, data)
